@@ -2,12 +2,16 @@
 //!   symcheck <Cxx> [--tier quick|thorough] [--seed N] [--only SUBSTR] [--threads N] [-v]
 //!   symcheck replay <file>
 //!   symcheck selftest
+mod alloc;
 mod dom;
 mod json;
 mod props;
 mod run;
 mod sym;
 mod views;
+
+#[global_allocator]
+static GLOBAL: alloc::Counting = alloc::Counting;
 
 use json::J;
 use props::Tier;
@@ -46,12 +50,32 @@ fn main() {
             if let Some(only) = arg(&args, "--only") { units.retain(|u| u.id.contains(&only)); }
             if args.iter().any(|a| a == "--list") { for u in &units { println!("{}", u.id); } return; }
             let cfg = Config { threads, timeout_ms, replay_dir: format!("{}/replays", verif), property: p.to_string(), known: load_known(&format!("{}/known_findings.json", verif)), verbose };
-            let _ = std::fs::remove_dir_all(format!("{}/{}", cfg.replay_dir, p));
+            if !args.iter().any(|a| a == "--keep-replays") { let _ = std::fs::remove_dir_all(format!("{}/{}", cfg.replay_dir, p)); }
             let t0 = Instant::now();
             let n_units = units.len();
             let reports = run::explore_all(units, &cfg);
             let wall = t0.elapsed().as_secs_f64();
-            let code = report(p, tier, seed, &reports, &meta, wall, &verif, n_units, args.iter().any(|a| a == "--no-evidence"), verbose);
+            // C15: the same units once more in the release build (debug assertions and overflow checks OFF, wrapping usize)
+            let mut second: Option<J> = None;
+            let mut second_code = 0;
+            if p == "C15" && cfg!(debug_assertions) && !args.iter().any(|a| a == "--no-release-pass") {
+                let exe = format!("{}/engine/target/release/symcheck", verif);
+                let mut cmd = std::process::Command::new(&exe);
+                cmd.args([p, "--tier", if tier == Tier::Quick { "quick" } else { "thorough" }, "--seed", &seed.to_string(), "--no-evidence", "--keep-replays", "--summary-json"]);
+                if let Some(only) = arg(&args, "--only") { cmd.args(["--only", &only]); }
+                match cmd.output() {
+                    Ok(out) => {
+                        let text = String::from_utf8_lossy(&out.stdout).to_string();
+                        for l in text.lines() { if l.starts_with("VIOLATION") || l.starts_with("KNOWN-FINDING") || l.starts_with("  ") || l.starts_with("UNDECIDED") { println!("{}", l.replace("UNDECIDED", "UNDECIDED[release]")); } }
+                        second_code = out.status.code().unwrap_or(2);
+                        second = text.lines().find(|l| l.starts_with("SUMMARY-JSON ")).and_then(|l| json::parse(&l[13..]).ok());
+                        if second.is_none() { println!("UNDECIDED release pass produced no summary (exit {})", second_code); second_code = second_code.max(2); }
+                    }
+                    Err(e) => { println!("UNDECIDED cannot run the release build of the harness ({}): {}", exe, e); second_code = 2; }
+                }
+            }
+            let code = report(p, tier, seed, &reports, &meta, wall, &verif, n_units, args.iter().any(|a| a == "--no-evidence"), verbose, second, args.iter().any(|a| a == "--summary-json"));
+            let code = if code == 1 || second_code == 1 { 1 } else { code.max(second_code) };
             std::process::exit(code);
         }
     }
@@ -83,7 +107,7 @@ fn replay_file(path: &str, timeout_ms: u64) -> i32 {
     if r.exact_reproduces { 1 } else { 0 }
 }
 
-fn report(p: &str, tier: Tier, seed: u64, reports: &[UnitReport], meta: &props::Meta, wall: f64, verif: &str, n_units: usize, no_evidence: bool, verbose: bool) -> i32 {
+fn report(p: &str, tier: Tier, seed: u64, reports: &[UnitReport], meta: &props::Meta, wall: f64, verif: &str, n_units: usize, no_evidence: bool, verbose: bool, second_pass: Option<J>, summary_json: bool) -> i32 {
     let sum = |f: &dyn Fn(&UnitReport) -> u64| reports.iter().map(|r| f(r)).sum::<u64>();
     let paths = sum(&|r| r.paths);
     let queries = sum(&|r| r.queries);
@@ -143,6 +167,11 @@ fn report(p: &str, tier: Tier, seed: u64, reports: &[UnitReport], meta: &props::
         ("wall_s", J::Num((wall * 100.0).round() / 100.0)),
         ("violations", J::Int(violations)),
     ]);
+    let mut ev = ev;
+    if let Some(sp) = second_pass { if let Some(J::Obj(cov)) = ev.get("coverage").cloned().as_ref() { let mut c = J::Obj(cov.clone()); c.set("release_profile_pass", sp); ev.set("coverage", c); } }
+    if summary_json {
+        println!("SUMMARY-JSON {}", J::obj(vec![("profile", J::s(run::profile())), ("units", J::Int(n_units as i64)), ("paths", J::Int(paths as i64)), ("queries", J::Int(queries as i64)), ("paths_ending_in_a_crate_panic", J::Int(sum(&|r| r.paths_panicked) as i64)), ("violations", J::Int(violations)), ("undecided", J::Int(inconclusive.len() as i64)), ("wall_s", J::Num((wall * 100.0).round() / 100.0))]).pretty().replace('\n', " "));
+    }
     if !no_evidence {
         let _ = std::fs::create_dir_all(format!("{}/evidence", verif));
         std::fs::write(format!("{}/evidence/{}.json", verif, p), ev.pretty()).expect("write evidence");
